@@ -84,6 +84,16 @@ static U32 doAdd(int t, unsigned addr) {
     return old + 1;
 }
 
+/* finite timeouts far beyond any run (hours to centuries): must behave like "block until notified"; the values sit around the
+   points where a seconds/nanoseconds conversion could wrap (2^32 s, 2^31 s, 2^63 ns) */
+#define HUGE_NS 3600000000000LL
+static long long hugeTimeout(unsigned long long x) {
+    static const long long base[] = { 3600000000000LL, 4294967296LL * 1000000000LL, 2147483648LL * 1000000000LL, 8589934592LL * 1000000000LL,
+                                      4611686018427387904LL, 9223372036854775807LL - 400000000LL, 4294967295LL * 1000000000LL, 86400LL * 365 * 1000000000LL };
+    long long b = base[x % 8];
+    return b + (long long)((x >> 8) % 400000000ULL);   /* plus up to 0.4 s */
+}
+
 typedef struct { int t, role, scenario, naddr; unsigned long long seed; unsigned* addrs; unsigned target; int iters; } TArg;
 
 static void* threadMain(void* p) {
@@ -102,10 +112,10 @@ static void* threadMain(void* p) {
             for (i = 0; i < a->iters && !__atomic_load_n(&rescue, __ATOMIC_SEQ_CST); i++) {
                 unsigned addr = a->addrs[rnd() % (unsigned)a->naddr]; int off = (rnd() % 4 == 0) ? 1024 : 0; int is64 = rnd() % 5 == 0;
                 unsigned cur = fx_load32(child[a->t], addr + (unsigned)off);
-                unsigned long long exp = cur; long long timeout; unsigned r = rnd() % 10;
+                unsigned long long exp = cur; long long timeout; unsigned r = rnd() % 12;
                 if (is64) { addr &= ~7u; cur = fx_load32(child[a->t], addr + (unsigned)off); exp = (unsigned long long)cur | ((unsigned long long)fx_load32(child[a->t], addr + (unsigned)off + 4) << 32); }
                 if (rnd() % 5 == 0) exp = exp + 1 + rnd() % 3;      /* deliberately wrong expectation */
-                timeout = r < 3 ? -1 : r < 5 ? 0 : r < 8 ? (long long)(200000 + rnd() % 3000000) : (long long)(rnd() % 50000);
+                timeout = r < 3 ? -1 : r < 5 ? 0 : r < 8 ? (long long)(200000 + rnd() % 3000000) : r < 10 ? (long long)(rnd() % 50000) : hugeTimeout(rnd());
                 doWait(a->t, addr, exp, timeout, is64, off);
             }
         } else {
@@ -156,7 +166,7 @@ int main(int argc, char** argv) {
     while (__atomic_load_n(&threadsLeft, __ATOMIC_SEQ_CST) > 0) {
         int parked = 0, infinite = 1, left = __atomic_load_n(&threadsLeft, __ATOMIC_SEQ_CST), notifiersLeft = 0;
         usleep(2000);
-        for (t = 0; t < W; t++) if (__atomic_load_n(&inWait[t], __ATOMIC_SEQ_CST)) { parked++; if (waitTimeout[t] >= 0) infinite = 0; }
+        for (t = 0; t < W; t++) if (__atomic_load_n(&inWait[t], __ATOMIC_SEQ_CST)) { parked++; if (waitTimeout[t] >= 0 && waitTimeout[t] < HUGE_NS) infinite = 0; }
         (void)notifiersLeft;
         if (left > 0 && parked == left && infinite && futexNodes(mem, NULL, 1) == parked) { if (parked == lastParked) stable++; else stable = 0; lastParked = parked; }
         else { stable = 0; lastParked = -1; }
